@@ -63,7 +63,7 @@ def contention_case(draw):
     best single pair is often not part of the optimal assignment (greedy != optimal)."""
     n = draw(st.integers(2, 5))
     m = draw(st.integers(2, 5))
-    kind = draw(st.sampled_from(["TimeInterval", "BoundingBox", "mixed", "time_mixed", "near_tie", "time_only_near_zero"]))
+    kind = draw(st.sampled_from(["TimeInterval", "BoundingBox", "mixed", "time_mixed", "near_tie", "time_only_near_zero", "vanishing"]))
     ts = draw(st.sampled_from([2.0**-3, 1.0, 8.0]))
     fs = draw(st.sampled_from([128.0, 8192.0]))
 
@@ -98,6 +98,28 @@ def contention_case(draw):
 
         pool = [tone() for _ in range(n + m)]
         return {"pool": pool, "src": list(range(n)), "tgt": list(range(n, n + m)), "tb": tb, "fb": fs / 8}
+    if kind == "vanishing":
+        # a very long annotation (a whole deployment: 2^30 .. 2^40 s) against clicks shorter than a sample: their affinities are positive
+        # but far below one ulp of 1 (1e-17 and less); next to them geometries that start after the long one ends (affinity exactly 0)
+        huge = 2.0 ** draw(st.sampled_from([30, 34, 40]))
+        tb = 2.0**-24
+        long_kind = draw(st.sampled_from(["TimeInterval", "BoundingBox"]))
+        long_g = {"type": long_kind, "coordinates": [0.0, huge] if long_kind == "TimeInterval" else [0.0, 0.0, huge, 4096.0], "meta": {}}
+
+        def click(inside):
+            a = (0.0 if inside else huge + 16.0) + draw(st.integers(0, 64)) * 2.0**-10  # inside: near time 0, where floats resolve a click
+            ln = 2.0 ** draw(st.sampled_from([-30, -24, -20]))
+            if long_kind == "TimeInterval":
+                return {"type": "TimeInterval", "coordinates": [a, a + ln], "meta": {}}
+            return {"type": "BoundingBox", "coordinates": [a, 1024.0, a + ln, 2048.0], "meta": {}}
+
+        others = [click(draw(st.booleans())) for _ in range(draw(st.integers(1, 3)))] + [click(True), click(False)]
+        others = draw(st.permutations(others))
+        pool = [long_g] + list(others)
+        a_side, b_side = [0], list(range(1, len(pool)))
+        if draw(st.booleans()):
+            a_side, b_side = b_side, a_side
+        return {"pool": pool, "src": a_side, "tgt": b_side, "tb": tb, "fb": 8.0}
     if kind == "near_tie":
         # all geometries overlap each other and two complete pairings have totals that differ by 1e-8 .. 1e-6 (not exactly tied):
         # intervals on the grid whose ends are moved by a few tenths of a microsecond
@@ -300,6 +322,14 @@ def check(spec, ctx):
         ctx.fail(f"source indices mentioned {sorted(seen_s)}, expected each of 0..{n - 1} exactly once", spec, sorted(seen_s), list(range(n)), kind="cover")
     if sorted(seen_t) != list(range(m)):
         ctx.fail(f"target indices mentioned {sorted(seen_t)}, expected each of 0..{m - 1} exactly once", spec, sorted(seen_t), list(range(m)), kind="cover")
+    # an optimal pairing leaves no source and target unpaired that overlap: pairing them too would add their (positive) affinity,
+    # however small it is - this consequence of optimality needs no tolerance
+    free_s = [int(s) for s, t, _ in out if t is None and s is not None]
+    free_t = [int(t) for s, t, _ in out if s is None and t is not None]
+    for s_ in free_s:
+        for t_ in free_t:
+            if mat[s_][t_] > 0:
+                ctx.fail(f"source {s_} and target {t_} are both left unpaired although their affinity {mat[s_][t_]!r} is positive: pairing them as well gives a larger total", spec, [s_, t_, mat[s_][t_]], "paired", kind="not_maximal")
     best = brute_best_dp(tuple(tuple(r) for r in mat), n, m)
     if n * m <= 16:  # cross-check the DP with plain enumeration on the small cases
         b2 = brute_best(mat, n, m)
